@@ -25,7 +25,7 @@ MANIFEST = dict(
 
 # kinds with a located first diagnostic and a marker
 LOCATED = ['parse_error', 'slash', 'varying_names', 'dup_plain', 'dup_shell', 'unknown_shell', 'non_command_spec',
-           'subword_spaces', 'placeholder_not_last']
+           'subword_spaces', 'subword_spaces_root_refs', 'placeholder_not_last']
 
 
 def warning_case(r):
